@@ -334,54 +334,42 @@ def r14d(ctx, P):
     if not ctx.anchor(rid, comp, "Index::compact"):
         return
     n = 0
-    GET_DOC = "searchlite_core::index::segment::SegmentReader::get_doc"
-    for g in [comp] + P.closures_of(comp):
+    from sa.rules.common import compaction_chain, adapter_calls_with_closure, chain_filters, is_not_deleted_filter
+    sites, helpers = compaction_chain(P, comp)
+    for g, b, t, direct in sites:
         sl = Slice(g)
-        for b, t in g.calls():
-            cal = callee_of(t)
-            direct = cal.endswith("SegmentReader::get_doc")
-            via_helper = (not direct) and cal in P.fns and P.fns[cal].crate == "searchlite_core" and P.fns[cal].vis != "Public" and \
-                P.fns[cal].file == comp.file and GET_DOC in P.reach(cal)
-            if not (direct or via_helper):
+        n += 1 if direct else 0
+        ctx.saw(g)
+        extra = []
+        # iterator form: the stages in front of this closure may only drop deleted documents
+        if g.kind == "closure":
+            for (par, ab, at) in adapter_calls_with_closure(P, g):
+                for (kind, fb, clos) in chain_filters(P, par, at["args"][0]):
+                    if not (kind == "filter" and clos and all(is_not_deleted_filter(P, h) for h in clos)):
+                        extra.append((Site(par, fb), ["Iterator::" + kind]))
+        for (a, succ) in g.control_deps_transitive(b):
+            ta = g.blocks[a]["term"]
+            if ta["k"] != "switch":
                 continue
-            n += 1
-            ctx.saw(g)
-            extra = []
-            # iterator form: the stages in front of this closure may only drop deleted documents
-            if g.kind == "closure":
-                from sa.rules.common import adapter_calls_with_closure, chain_filters, is_not_deleted_filter
-                for (par, ab, at) in adapter_calls_with_closure(P, g):
-                    for (kind, fb, clos) in chain_filters(P, par, at["args"][0]):
-                        if not (kind == "filter" and clos and all(is_not_deleted_filter(P, h) for h in clos)):
-                            extra.append((Site(par, fb), ["Iterator::" + kind]))
-            if via_helper:
-                h = P.fns[cal]
-                hs = Slice(h)
-                for hb, ht in h.calls():
-                    if callee_of(ht) == GET_DOC:
-                        for (a, succ) in h.control_deps_transitive(hb):
-                            ta = h.blocks[a]["term"]
-                            if ta["k"] == "switch" and not any("QuestionMark" in m for m in (ta.get("macros") or [])):
-                                extra.append((Site(h, a), [callee_of(x[2]) for x in hs.sources(ta["on"]) if x[0] == "call"]))
-            for (a, succ) in g.control_deps_transitive(b):
-                ta = g.blocks[a]["term"]
-                if ta["k"] != "switch":
-                    continue
-                if any("ForLoop" in m or "WhileLoop" in m for m in (ta.get("macros") or [])) or _is_error_exit_test(g, a) and False:
-                    continue
-                srcs = sl.sources(ta["on"])
-                calls = [callee_of(x[2]) for x in srcs if x[0] == "call"]
-                if calls and all(c.endswith(("SegmentReader::is_deleted", "Range<A> as core::iter::traits::iterator::Iterator>::next",
-                                             "Iterator>::next", "::next")) for c in calls):
-                    continue
-                if any("QuestionMark" in m for m in (ta.get("macros") or [])):
-                    continue
-                extra.append((Site(g, a), calls))
-            ctx.ob(rid, "%s:compact:only-deleted-documents-skipped" % rid, not extra,
-                   "a document is re-ingested unless is_deleted says otherwise" if not extra else
-                   "whether the document is re-ingested at %s also depends on the test at %s (%s): a live document can be left out of "
-                   "the compacted segment" % (Site(g, b).loc(), extra[0][0].loc(), ", ".join(c.rsplit("::", 1)[-1] for c in extra[0][1]) or "a comparison"),
-                   Site(g, b).loc())
+            if any("ForLoop" in m or "WhileLoop" in m for m in (ta.get("macros") or [])):
+                continue
+            # in compact ITSELF an early return abandons the whole compaction (nothing changes); inside a per-document closure or
+            # helper an early return is a skipped document, so it is not excused there
+            if g.path == comp.path and _is_error_exit_test(g, a):
+                continue
+            srcs = sl.sources(ta["on"])
+            calls = [callee_of(x[2]) for x in srcs if x[0] == "call"]
+            if calls and all(c.endswith(("SegmentReader::is_deleted", "Range<A> as core::iter::traits::iterator::Iterator>::next",
+                                         "Iterator>::next", "::next")) for c in calls):
+                continue
+            if any("QuestionMark" in m for m in (ta.get("macros") or [])):
+                continue
+            extra.append((Site(g, a), calls))
+        ctx.ob(rid, "%s:compact:only-deleted-documents-skipped" % rid, not extra,
+               "a document is re-ingested unless is_deleted says otherwise" if not extra else
+               "whether the document is re-ingested at %s also depends on the test at %s (%s): a live document can be left out of "
+               "the compacted segment" % (Site(g, b).loc(), extra[0][0].loc(), ", ".join(c.rsplit("::", 1)[-1] for c in extra[0][1]) or "a comparison"),
+               Site(g, b).loc())
     ctx.floor(rid, n, 1, "SegmentReader::get_doc call in the compaction stream")
 
 
